@@ -986,3 +986,31 @@ func constString(v ssa.Value) (string, bool) {
 	}
 	return "", false
 }
+
+// isParamN: v is parameter idx of fn, or a load of the cell that parameter was spilled into
+// (parameters captured by a closure or a defer live in a cell).
+func isParamN(fn *ssa.Function, v ssa.Value, idx int) bool {
+	if idx >= len(fn.Params) {
+		return false
+	}
+	p := fn.Params[idx]
+	if v == ssa.Value(p) {
+		return true
+	}
+	u, ok := v.(*ssa.UnOp)
+	if !ok || u.Op != token.MUL {
+		return false
+	}
+	a, ok := u.X.(*ssa.Alloc)
+	if !ok {
+		return false
+	}
+	n, isP := 0, false
+	for _, r := range *a.Referrers() {
+		if st, ok := r.(*ssa.Store); ok && st.Addr == ssa.Value(a) {
+			n++
+			isP = st.Val == ssa.Value(p)
+		}
+	}
+	return n == 1 && isP
+}
